@@ -126,6 +126,7 @@ def execute(scn):
     stats = {
         "counters": {
             "update_calls": n_upd,
+            "env.pydrex_get_pathline": sum(1 for p_ in world.paths if p_._interp is not None),
             "updates_ok": sum(1 for r in log if r["op"] in ("update", "update_all")
                               and r["status"] == "ok"),
             "snapshots_checked": mon.n_snap_checked,
@@ -156,7 +157,7 @@ def shrink_candidates(scn):
     yield from generic_world_candidates(scn)
 
 
-RUNS = {"quick": 3000, "thorough": 120000}
+RUNS = {"quick": 3000, "thorough": 60000}
 RULE = ("one evaluation = one seeded world (1-3 minerals, phase/fabric/regime/flow/path/params/"
         "texture/volumes/solver-tolerance/clock-rate all drawn per run) driven through a seeded "
         "history of update / update_all / restart / faulted-update ops; all C01 clauses are "
